@@ -1,17 +1,17 @@
 /-
   Ark.Props.C01Rel — C01 (faithful store) and C15 (Shrink is invisible) over histories of any
   length for the observer-free fragment WITH relation components, when the entity operations are
-  interleaved with `Shrink`, filter definitions, registrations, unregistrations and queries
-  (the machine `Ark.RelRefine2.step2` of Ark/Proofs/RelRefine2Machine.lean; see
-  Ark/Props/C05Rel.lean for its operations and for why `Reset` is not a step of the histories
-  covered — `reset_step_partial` there says what `Reset` does establish).
+  interleaved with `Shrink`, `Reset`, filter definitions, registrations, unregistrations and
+  queries (the machine `Ark.RelRefine2.step2` of Ark/Proofs/RelRefine2Machine.lean; see
+  Ark/Props/C05Rel.lean for its operations).
 
   The abstract specification is that of `Ark.RelRefine` (C04): alive handle ↦ (component ↦ value,
   relation component ↦ target).  The entity operations move it as `RelRefine.specStep` says;
   `copy e` (`CopyEntity`, which `RelRefine` does not have) adds the entry of `e` a second time under
   the handle returned (`copy_assigns`: components, values AND relation targets are those of `e`);
   `Shrink`, the filter operations and queries do not move it at all (`quiet_spec`), and they
-  change no entity's components, values or relation targets (`quiet_invisible`).
+  change no entity's components, values or relation targets (`quiet_invisible`); `reset` empties
+  it and starts a new epoch of handles (`reset_effect`), as in `Ark.Refine`.
 
   Bound: `ops.length < 2^16`.
 -/
@@ -25,12 +25,11 @@ open Ark.Refine (Comps keys sortedIds)
 
 variable (run : ProbeRunner) (cap rel : Nat)
 
-/-- **refines** — after every `Reset`-free history, for every entry `(e, en)` of the
+/-- **refines** — after every history (`Reset` anywhere in it), for every entry `(e, en)` of the
     specification: `e` is alive, its component set is the sorted list of the keys of `en.comps`,
     every component holds the recorded value, every relation component has the recorded target;
     the recorded relations are exactly the relation components among the keys -/
-theorem refines (ops : List Op2) (hlen : ops.length < 2 ^ 16)
-    (hnr : ∀ op ∈ ops, op.isReset = false) (e : Ent) (en : Entry)
+theorem refines (ops : List Op2) (hlen : ops.length < 2 ^ 16) (e : Ent) (en : Entry)
     (hm : (e, en) ∈ (reach2 run cap rel ops).ss.ents) :
     (reach2 run cap rel ops).w.alive e = true ∧
     compsOf (reach2 run cap rel ops).w e.id =
@@ -40,15 +39,40 @@ theorem refines (ops : List Op2) (hlen : ops.length < 2 ^ 16)
     (keys en.comps).Nodup ∧ (en.rels.map (·.comp)).Nodup ∧
     (∀ c : Comp, c ∈ en.rels.map (·.comp) ↔
       c ∈ keys en.comps ∧ (reach2 run cap rel ops).w.isRelComp c = true) :=
-  refines2 run cap rel ops hlen hnr e en hm
+  refines2 run cap rel ops hlen e en hm
 
 /-- a handle the client holds is alive iff the specification has an entry for it -/
-theorem alive_iff_specified (ops : List Op2) (hlen : ops.length < 2 ^ 16)
-    (hnr : ∀ op ∈ ops, op.isReset = false) (h : Ent)
+theorem alive_iff_specified (ops : List Op2) (hlen : ops.length < 2 ^ 16) (h : Ent)
     (hi : h ∈ (reach2 run cap rel ops).issued) :
     (reach2 run cap rel ops).w.alive h = true ↔
       (find (reach2 run cap rel ops).ss.ents h).isSome = true :=
-  alive_iff_specified2 run cap rel ops hlen hnr h hi
+  alive_iff_specified2 run cap rel ops hlen h hi
+
+/-- **`Reset` ends the epoch** (C16 over histories with relations): after `ops ++ [reset]` the
+    specification has no entity, the registry is kept, nothing counts as issued, no ID is indexed
+    to a table (no component set, value or relation target can be read), the cache is empty, every
+    filter object is unregistered, and every handle issued before is dead -/
+theorem reset_effect (ops : List Op2) (hlen : ops.length + 1 < 2 ^ 16) :
+    (reach2 run cap rel (ops ++ [.reset])).ss.ents = [] ∧
+    (reach2 run cap rel (ops ++ [.reset])).ss.zst = (reach2 run cap rel ops).ss.zst ∧
+    (reach2 run cap rel (ops ++ [.reset])).ss.isRel = (reach2 run cap rel ops).ss.isRel ∧
+    (reach2 run cap rel (ops ++ [.reset])).issued = [] ∧
+    (reach2 run cap rel (ops ++ [.reset])).w.kinds = (reach2 run cap rel ops).w.kinds ∧
+    (∀ (i : Nat), compsOf (reach2 run cap rel (ops ++ [.reset])).w i = none ∧
+      (∀ (c : Comp), valOf (reach2 run cap rel (ops ++ [.reset])).w i c = none) ∧
+      ∀ (c : Comp), targetOf (reach2 run cap rel (ops ++ [.reset])).w i c = none) ∧
+    ((reach2 run cap rel (ops ++ [.reset])).w.cache.indices = [] ∧
+      (reach2 run cap rel (ops ++ [.reset])).w.cache.filters = []) ∧
+    (∀ (f : Nat) (fo : FilterObj),
+      AL.find? (reach2 run cap rel (ops ++ [.reset])).w.filters f = some fo → fo.cache = none) ∧
+    ∀ (h : Ent), h ∈ (reach2 run cap rel ops).issued →
+      (reach2 run cap rel (ops ++ [.reset])).w.alive h = false :=
+  reset_effect2 run cap rel ops hlen
+
+/-- no handle that was issued carries the sentinel generation `MaxUint32` -/
+theorem issued_gen_bound (ops : List Op2) (hlen : ops.length < 2 ^ 16) :
+    ∀ (h : Ent), h ∈ (reach2 run cap rel ops).issued → h.gen ≤ ops.length ∧ h.gen ≠ maxU32 :=
+  reach2_issued_gen run cap rel ops hlen
 
 /-- `Shrink`, the filter operations and queries leave the specification and the handles alone -/
 theorem quiet_keeps_spec (s : St) (op : Op2) (hq : op.isQuiet = true) :
@@ -98,11 +122,11 @@ theorem copy_rejected {s : St} {fl : List Nat} (H : HInv2 s fl) {e : Ent}
 /-- `CopyEntity` at world level, in a world with relations: never fails for a live entity -/
 theorem copyEntity_rel {w : World} {fl : List Nat} (h : TInv w fl)
     (hl : w.isLocked = false) (hno : ∀ (evt : Nat), w.obs.hasObservers evt = false) {src : Ent}
-    (h2 : 2 ≤ src.id) (hnf : src.id ∉ fl) (ha : w.alive src = true)
+    (h2 : 2 ≤ src.id) (hnf : src.id ∉ fl) (ha : w.alive src = true) (hsl : src.id < w.pool.ents.length)
     (hrows : w.entities.length + 1 < 2 ^ 32) :
     ∃ (w' : World), opCopyEntity run src w = .ok (w.pool.get).2 w' ∧
       CopyRelPost w fl src (w.pool.get).2 w' :=
-  opCopyEntity_rel_spec run h hl hno h2 hnf ha hrows
+  opCopyEntity_rel_spec run h hl hno h2 hnf ha hsl hrows
 
 /-! ## non-vacuity: the history of `Ark.Props.C05Rel` -/
 
@@ -153,5 +177,21 @@ example :
     (step2 noRun (reach2 noRun 2 2 demoOps) (.copy p1)).ss.ents =
       (reach2 noRun 2 2 demoOps).ss.ents := by
   decide +kernel
+
+/-- the history with `Reset` of `Ark.Props.C05Rel` (`resetOps`): the model agrees with the
+    specification right after `Reset` (nothing to agree on), in the new epoch — the child `4.0` of
+    the re-issued parent `2.0` sits in the recycled relation table — and at the end, where the
+    child is detached from the removed parent -/
+example :
+    (reach2 noRun 2 2 (resetOps.take 22)).ss.ents = [] ∧
+    agrees (reach2 noRun 2 2 (resetOps.take 27)) = true ∧
+    (reach2 noRun 2 2 (resetOps.take 27)).ss.ents =
+      [(⟨4, 0⟩, ⟨[(0, 0), (1, 7)], [⟨0, p1⟩]⟩), (p2, ⟨[], []⟩), (p1, ⟨[], []⟩)] ∧
+    agrees (reach2 noRun 2 2 resetOps) = true ∧
+    (reach2 noRun 2 2 resetOps).ss.ents =
+      [(⟨6, 0⟩, ⟨[(0, 0), (1, 3)], [⟨0, Ent.zero⟩]⟩), (⟨5, 0⟩, ⟨[(0, 0), (1, 9)], [⟨0, p2⟩]⟩),
+       (⟨4, 0⟩, ⟨[(0, 0), (1, 7)], [⟨0, Ent.zero⟩]⟩), (p2, ⟨[], []⟩)] ∧
+    resetOps.length < 2 ^ 16 := by
+  refine ⟨?_, ?_, ?_, ?_, ?_, ?_⟩ <;> decide +kernel
 
 end Ark.Props.C01Rel
